@@ -486,7 +486,7 @@ OLC_SCEN = {  # scenario -> (max preemption index explored = atomic accesses of 
     'n_get2_ins400': (60, 'reader three levels deep while an inner node on its path is replaced by a larger one'),
     'n_rem3_ins400': (100, 'remove three levels deep while the parent of its node is replaced'),
 }
-OLC_QUICK = {'C03': {'c_get_k1_rem_k0', 'g_ins5_rem1', 'g_ins5_ins5', 'l_get_rem', 's_get2_rem5'}, 'C04': {'c_get_k1_rem_k0', 'l_get_rem', 's_get2_rem5'}, 'C14': {'g_ins5_rem1', 'n_ins4_ins400'}, 'C10': {'g_ins5_rem1'}}
+OLC_QUICK = {'C03': {'c_get_k1_rem_k0', 'g_ins5_rem1', 'g_ins5_ins5', 'l_get_rem', 's_get2_rem5', 'p_rem_split'}, 'C04': {'c_get_k1_rem_k0', 'l_get_rem', 's_get2_rem5'}, 'C14': {'g_ins5_rem1', 'n_ins4_ins400'}, 'C10': {'g_ins5_rem1'}}
 OLC_KNOWN = {}    # (scenario, k) -> known finding id; filled from known_findings.txt ids below
 
 
@@ -639,9 +639,12 @@ SCANC_SCEN = {  # scenario -> (max preemption index, what)
     'sc_from_fwd_rem': (160, 'scan_from (forward, bound not stored) in a two-level tree while an inner node on the path collapses'),
     'sc_from_rev_ins': (160, 'scan_from (reverse) in a two-level tree while a key is inserted behind the bound'),
     'sc_range_rem_leaf': (160, 'scan_range in a two-level tree while the last leaf under the root is removed'),
+    'sc_from_flat_ins_low': (80, 'scan_from (forward, bound byte unmapped) of one I4 while a key behind the scanner is inserted; node version then equals the parent version saved at seek time'),
+    'sc_from_flat_rem_low': (80, 'scan_from (forward, bound byte unmapped) of one I4 while the key behind the scanner is removed'),
+    'sc_from_rev_flat_ins_high': (80, 'scan_from (reverse, bound byte unmapped) of one I4 while a key behind the scanner (above it) is inserted'),
     'sc_fwd_two_rem_inner': (160, 'forward scan of a two-level tree while the first inner node collapses onto its remaining leaf'),
 }
-SCANC_QUICK = {'sc_rev_rem_mid', 'sc_fwd_two_rem_inner'}
+SCANC_QUICK = {'sc_rev_rem_mid', 'sc_fwd_two_rem_inner', 'sc_from_flat_ins_low'}
 
 
 def scanc_wrappers():
